@@ -4,6 +4,7 @@
   Property theorems (kept apart from the helper lemmas in Proofs/Gguf.lean).
 -/
 import OllamaVerif.Proofs.Gguf
+import OllamaVerif.Proofs.GgufRoundTrip
 
 namespace OllamaVerif.C05
 open OllamaVerif OllamaVerif.Gguf
@@ -57,5 +58,56 @@ example : alignmentIn [] = .ok 32 ∧ (∀ t ∈ [t4 1, t4 2, t4 3], WfT t) ∧
   intro t ht
   simp only [List.mem_cons, List.not_mem_nil, or_false] at ht
   rcases ht with rfl | rfl | rfl <;> (unfold WfT; decide)
+
+/-- **Round trip** (re-exported from Proofs/GgufRoundTrip.lean): writing keys/values (given in key
+    order, distinct keys, none of them `general.parameter_count`) and tensors and decoding the file
+    yields the same keys and values (+ the parameter count), the same tensor names, kinds and
+    dimension-reversed shapes with the declared offsets, the aligned data start, and an end offset
+    equal to the file length — for every input meeting the size bounds a real file meets (lengths
+    and counts below 2^63 / 2^64, element values in range) and every `maxArraySize`. -/
+theorem decode_encode (kvs : List (Bytes × KVal)) (ts : List TIn) (file : Bytes) (align : Nat) (maxArraySize : Int)
+    (hsorted : sortKVs kvs = kvs) (hnodup : (kvs.map (·.1)).Nodup)
+    (hnoparam : ∀ kv ∈ kvs, kv.1 ≠ keyParamCount)
+    (hwkv : ∀ kv ∈ kvs, WfKV kv) (hwt : ∀ t ∈ ts, WfTensor t ∧ WfT t)
+    (hnk : kvs.length < two64) (hnt : ts.length < two64)
+    (halign : alignmentIn kvs = .ok align) (hpos : 0 < align)
+    (hoff : ∀ o ∈ offsets false align ts 0, o < two64)
+    (henc : encode false kvs ts = .ok file) (hlen : file.length < two63) :
+    decode file maxArraySize none
+      = .ok ⟨3, kvs.map (fun kv => (kv.1, toVal (if maxArraySize = 0 then 1024 else maxArraySize) kv.2)) ++
+                [(keyParamCount, .scalar 10 (sumParameters (infosOf ts (offsets false align ts 0))))],
+             infosOf ts (offsets false align ts 0),
+             (encHead false align kvs ts).length + padding (encHead false align kvs ts).length align, file.length⟩ :=
+  OllamaVerif.Gguf.decode_encode kvs ts file align maxArraySize hsorted hnodup hnoparam hwkv hwt hnk hnt halign hpos
+    hoff henc hlen
+
+/-- corollary: the end offset reported by the decoder equals the file length -/
+theorem end_offset_is_file_length (kvs : List (Bytes × KVal)) (ts : List TIn) (file : Bytes) (align : Nat) (maxA : Int)
+    (hsorted : sortKVs kvs = kvs) (hnodup : (kvs.map (·.1)).Nodup)
+    (hnoparam : ∀ kv ∈ kvs, kv.1 ≠ keyParamCount)
+    (hwkv : ∀ kv ∈ kvs, WfKV kv) (hwt : ∀ t ∈ ts, WfTensor t ∧ WfT t)
+    (hnk : kvs.length < two64) (hnt : ts.length < two64)
+    (halign : alignmentIn kvs = .ok align) (hpos : 0 < align)
+    (hoff : ∀ o ∈ offsets false align ts 0, o < two64)
+    (henc : encode false kvs ts = .ok file) (hlen : file.length < two63) :
+    (decode file maxA none).toOption.map (·.endOffset) = some file.length := by
+  rw [OllamaVerif.Gguf.decode_encode kvs ts file align maxA hsorted hnodup hnoparam hwkv hwt hnk hnt halign hpos hoff henc hlen]
+  rfl
+
+/-- non-vacuity of `decode_encode`: two keys (one of them the alignment) and three tensors -/
+def kvEx : List (Bytes × KVal) := [(keyAlignment, .u32 32)]
+
+example : sortKVs kvEx = kvEx ∧ (kvEx.map (·.1)).Nodup ∧ alignmentIn kvEx = .ok 32 ∧
+    (∀ kv ∈ kvEx, kv.1 ≠ keyParamCount ∧ WfKV kv) ∧
+    (∀ t ∈ [t4 1, t4 2, t4 3], WfTensor t ∧ WfT t) := by
+  refine ⟨by simp [sortKVs, kvEx], by decide, rfl, ?_, ?_⟩
+  · intro kv hkv
+    simp only [kvEx, List.mem_singleton] at hkv
+    subst hkv
+    exact ⟨by decide, by unfold WfKV WfVal; decide⟩
+  · intro t ht
+    simp only [List.mem_cons, List.not_mem_nil, or_false] at ht
+    rcases ht with rfl | rfl | rfl <;>
+      exact ⟨⟨by decide, by decide, by decide, by decide⟩, by unfold WfT; decide⟩
 
 end OllamaVerif.C05
